@@ -1,5 +1,6 @@
-From RsdnsModel Require Import Base Client.
-From RsdnsModel.Proofs Require Import ClientProofs.
+From RsdnsModel Require Import Base Client Timed.
+From RsdnsModel.Spec Require Import Retry.
+From RsdnsModel.Proofs Require Import ClientProofs TimedProofs.
 From RsdnsModel.Properties Require Import C15.
 Open Scope N_scope.
 Check (C15_armed_within_lifetime : forall elapsed lifetime qt attempt tau,
@@ -22,4 +23,38 @@ Check (C15_armed_before_call_deadline : forall now start qs lifetime qt tau,
   (tcp_body_timeout_at now start qs lifetime = Ok tau -> 0 < tau /\ now + tau <= start + lifetime)).
 Check (C15_async_durations_are_configured : forall smol cfg_lifetime cfg_qt,
   async_call_duration smol cfg_lifetime cfg_qt = cfg_lifetime /\ async_attempt_duration smol cfg_lifetime cfg_qt = cfg_qt).
-Print Assumptions C15_armed_within_lifetime. Print Assumptions C15_deadline. Print Assumptions C15_attempt_over_retries. Print Assumptions C15_armed_before_call_deadline. Print Assumptions C15_async_durations_are_configured.
+Check (C15_exchange_refines_spec : forall std smol q lifetime qt queue lo,
+  qt_pos qt -> 0 < lifetime -> sorted_from lo queue ->
+  exists rest, exchange_of std smol q lifetime qt zero_jit queue =
+    (outcome_of (spec_udp (good_of std q) (exchange_fuel lifetime) (tq_start q) lifetime qt queue), rest) /\
+    exists pre, queue = pre ++ rest).
+Check (C15_schedule_nth : forall q bound fuel s k x,
+  nth_error (schedule fuel s q bound) k = Some x -> x = s + N.of_nat k * q /\ (k = 0%nat \/ x < bound)).
+Check (C15_schedule_complete : forall q bound, 0 < q -> forall fuel s k,
+  (N.to_nat (bound - s) < fuel)%nat -> s + N.of_nat k * q < bound ->
+  nth_error (schedule fuel s q bound) k = Some (s + N.of_nat k * q)).
+Check (C15_only_answers_matter : forall good fuel start lifetime qt arrs,
+  spec_udp good fuel start lifetime qt (filter (answers good) arrs) = spec_udp good fuel start lifetime qt arrs).
+Check (C15_std_is_async : forall good acc, (forall d, acc d = Ok (good d)) ->
+  forall start lifetime qt smol fuel arrs now,
+  qt_pos qt -> start <= now -> now < start + lifetime -> (N.to_nat (start + lifetime - now) < fuel)%nat ->
+  std_udp_exchange acc start lifetime qt (fun _ => 0) fuel arrs now =
+  async_udp_exchange acc start lifetime qt (fun _ => 0) smol fuel arrs now).
+Check (C15_retries_with_slack : forall std smol q lifetime qt jit eps queue s r t rest,
+  (forall x, jit x <= eps) -> qt_pos qt -> 0 < lifetime ->
+  exchange_of std smol q lifetime qt jit queue = (s, r, t, rest) ->
+  tq_start q <= t /\ t <= tq_start q + lifetime + eps /\
+  match r with Ok (d, fl) => good_of std q d = Some fl | Err e => e = Timeout | _ => False end /\
+  (exists s', s = tq_start q :: s' /\ gaps (tq_start q) lifetime qt eps (tq_start q) s') /\
+  Forall (fun x => tq_start q <= x /\ x <= t) s /\
+  (r = Err Timeout -> tq_start q + lifetime <= last s (tq_start q) + tmo lifetime qt + eps)).
+Check (C15_call_ends_by_deadline : forall std smol q lifetime qt jit eps buf_len strategy arrs srv sends ev r t,
+  (forall x, jit x <= eps) -> qt_pos qt -> 0 < lifetime ->
+  client_query_timed std smol q lifetime qt jit buf_len strategy arrs srv = (sends, ev, r, t) ->
+  tq_start q <= t /\ t <= tq_start q + lifetime + eps /\ match r with Ok _ | Err _ => True | _ => False end).
+Check (C15_example : (forall std, fst (exchange_of std false ex_q 1050 (Some 300) zero_jit ex_junk) = ([1000; 1300; 1600; 1900], Err Timeout, 2050)) /\
+  (forall std, fst (exchange_of std false ex_q 1050 (Some 300) zero_jit (ex_junk ++ [(1650, ex_resp x12 x34 "A")]))
+     = ([1000; 1300; 1600], Ok (ex_resp x12 x34 "A", 33152), 1650)) /\
+  (forall std, fst (exchange_of std false ex_q 1050 None zero_jit ex_junk) = ([1000], Err Timeout, 2050)) /\
+  sorted_from 0 (ex_junk ++ [(1650, ex_resp x12 x34 "A")]) /\ qt_pos (Some 300)).
+Print Assumptions C15_armed_within_lifetime. Print Assumptions C15_deadline. Print Assumptions C15_attempt_over_retries. Print Assumptions C15_armed_before_call_deadline. Print Assumptions C15_async_durations_are_configured. Print Assumptions C15_exchange_refines_spec. Print Assumptions C15_schedule_nth. Print Assumptions C15_schedule_complete. Print Assumptions C15_only_answers_matter. Print Assumptions C15_std_is_async. Print Assumptions C15_retries_with_slack. Print Assumptions C15_call_ends_by_deadline. Print Assumptions C15_example.
